@@ -9,7 +9,8 @@ from props.c10 import parse_nodes
 from props import c01, c09
 
 ID = "C04"
-THEOREMS = ["Bufr.C04.C04_const_column", "Bufr.C04.C04_listed_column", "Bufr.C04.C04_listed_column_spec", "Bufr.C04.C04_element", "Bufr.C04.C04_minNbinc_pos", "Bufr.C04.C04_character_column_listed", "Bufr.C04.C04_character_column_const", "Bufr.C04.C04_af_column_listed"]
+THEOREMS = ["Bufr.C04.C04_const_column", "Bufr.C04.C04_listed_column", "Bufr.C04.C04_listed_column_spec", "Bufr.C04.C04_element", "Bufr.C04.C04_minNbinc_pos", "Bufr.C04.C04_character_column_listed", "Bufr.C04.C04_character_column_const", "Bufr.C04.C04_af_column_listed",
+            "Bufr.C04.C04_marker_refers", "Bufr.C04.C04_bitmap_evaluated"]
 RULE = ("datasets of the C01/C02 space, re-encoded by the reference encoder with non-minimal increment widths "
         "(minimal..element width), local reference values anywhere below the minimum, explicit increments for constant "
         "columns, arbitrary R0 for listed strings, foreign compression of uncompressed data and vice versa, trailing "
@@ -101,8 +102,8 @@ def scenarios(rng, tier, runner):
     return out + bitmap_scenarios(rng, tier)
 
 def bitmap_scenarios(rng, tier):
-    """data present bit-maps with marker operators (outside the Lean model): messages written from FM 94 by
-    gen/bitmap.py, decoded by the implementation alone, judged by the values computed there"""
+    """data present bit-maps with marker operators: messages written from FM 94 by gen/bitmap.py, judged by the
+    values computed there (`expect` lines) and tied to the model (BufrModel/Bitmap.lean)"""
     from gen import bitmap
     out = []
     B, D = P["cur"]
@@ -111,7 +112,7 @@ def bitmap_scenarios(rng, tier):
         ls = ["T.use cur", "ds.decodemsg " + msg.hex()]
         for k, ex in enumerate(expect):
             ls += ["dd.vals %d" % k, bitmap.expect_line(ex)]
-        out.append(Scenario("bitmap-%d" % i, ls, {"nomodel": True, "family": "bitmap", "lastbit": info["bitmap"][-1], "tables": "cur"}))
+        out.append(Scenario("bitmap-%d" % i, ls, {"family": "bitmap", "lastbit": info["bitmap"][-1], "tables": "cur"}))
     return out
 
 def check_expect(scn, outs):
